@@ -236,6 +236,158 @@ Proof.
   intros [<-|[]]. vm_compute. intros [= <- <-]. reflexivity.
 Qed.
 
+(* ------------------------------------------------------------------------
+   NON-VACUITY (audit): every theorem of this file APPLIED to the run of ex_table above (5 strategies
+   of 4 kinds, 5 classes one of which is empty, two packets, 26 events), so that Coq checks that what
+   is discharged are the theorems' own hypotheses; the two contracts are discharged by
+   C04_nonvacuous_pe_contract / C04_nonvacuous_sym_contract. *)
+Definition ex_ans : list bool := [false; false; false; false; false; false; false; false].
+Definition ex_p1 : packet := mkP 0 [1] false.
+Definition ex_p2 : packet := mkP 0 [2] false.
+Notation ex_run ps := (run_search ex_table 0 20 false true ex_ans 0 ps).
+Notation exlbl := (label_of Z.eqb (fun c : Z => c)).
+Ltac in_trace := vm_compute; repeat (first [left; reflexivity | right]).
+
+(* label 2 belongs to class 1 and to no other class *)
+Example C04_labels_nonvacuous :
+  forall c, exlbl (cdb (ex_run [ex_p1; ex_p2])) c = Some 2 -> c = 1.
+Proof.
+  intros c H.
+  apply (C04_labels ex_table 0 20 false true ex_ans 0 [ex_p1; ex_p2] c 1 2 H). vm_compute; reflexivity.
+Qed.
+(* the conclusion discriminates: two different labels are in use for two different classes *)
+Example C04_labels_distinct :
+  exlbl (cdb (ex_run [ex_p1; ex_p2])) 1 = Some 2 /\ exlbl (cdb (ex_run [ex_p1; ex_p2])) 2 = Some 3.
+Proof. split; vm_compute; reflexivity. Qed.
+
+(* class 2 got label 3 during the first packet and keeps it over the second one (which labels class 3) *)
+Example C04_labels_stable_nonvacuous :
+  exlbl (cdb (ex_run ([ex_p1] ++ [ex_p2]))) 2 = Some 3.
+Proof.
+  apply (C04_labels_stable ex_table 0 20 false true ex_ans 0 [ex_p1] [ex_p2] 2 3). vm_compute; reflexivity.
+Qed.
+Example C04_labels_stable_db_grows :
+  classes (cdb (ex_run [ex_p1])) = [0; 4; 1; 2] /\ classes (cdb (ex_run ([ex_p1] ++ [ex_p2]))) = [0; 4; 1; 2; 3].
+Proof. split; vm_compute; reflexivity. Qed.
+
+(* the foreign-parent rule  S3(1) -> (3,)  the factory (strategy 2) yields while class 0 is expanded:
+   recorded under label 2 = the label of class 1 (not of the expanded class 0), child label 4 = class 3 *)
+Example C04_recorded_from_table_nonvacuous :
+  let d := cdb (ex_run [ex_p1; ex_p2]) in
+  exlbl d 1 = Some 2 /\
+  Forall2 (fun c l => exlbl d c = Some l) (firstn (length [4]) (kids_sp ex_table 3 1)) [4] /\
+  ((3 = -1 /\ [4] = [] /\ oracle ex_table 1 = true) \/
+   (applies ex_table 3 1 = true /\ yielded ex_table d 3 1 /\
+    (length [4] = length (kids_sp ex_table 3 1) \/
+     (length [4] = 1%nat /\ kids_sp ex_table 3 1 <> [] /\ sym_yielded ex_table 3 1)))).
+Proof.
+  apply (C04_recorded_from_table ex_table 0 20 false true ex_ans 0 [ex_p1; ex_p2] 2 [4] 3 1). in_trace.
+Qed.
+(* which branches are really taken: a table rule takes the right branch with ALL children (first
+   disjunct inside); the empty rule of an empty start class takes the left branch *)
+Example C04_recorded_from_table_branches :
+  kids_sp ex_table 3 1 = [3] /\ applies ex_table 3 1 = true /\ oracle ex_table 1 = false /\
+  In (EvAdd 0 [] (-1) 2) (trace (run_search ex_table 0 20 false true [] 2 [])) /\
+  oracle ex_table 2 = true /\ applies ex_table (-1) 2 = false.
+Proof. csplit; try (vm_compute; reflexivity). in_trace. Qed.
+Example C04_recorded_from_table_empty_rule_nonvacuous :
+  let d := cdb (run_search ex_table 0 20 false true [] 2 []) in
+  exlbl d 2 = Some 0 /\
+  Forall2 (fun c l => exlbl d c = Some l) (firstn (length (@nil Z)) (kids_sp ex_table (-1) 2)) [] /\
+  ((-1 = -1 /\ @nil Z = [] /\ oracle ex_table 2 = true) \/
+   (applies ex_table (-1) 2 = true /\ yielded ex_table d (-1) 2 /\
+    (length (@nil Z) = length (kids_sp ex_table (-1) 2) \/
+     (length (@nil Z) = 1%nat /\ kids_sp ex_table (-1) 2 <> [] /\ sym_yielded ex_table (-1) 2)))).
+Proof.
+  apply (C04_recorded_from_table ex_table 0 20 false true [] 2 [] 0 [] (-1) 2). in_trace.
+Qed.
+
+(* the symmetry image  S4(0) -> (4,)  is a recorded rule with sid <> -1: strategy 4 applies to class 0
+   and the rule is not the self-equivalence *)
+Example C04_no_rule_when_not_applicable_nonvacuous :
+  applies ex_table 4 0 = true /\ kids_sp ex_table 4 0 <> [0].
+Proof.
+  apply (C04_no_rule_when_not_applicable ex_table 0 20 false true ex_ans 0 [ex_p1; ex_p2] 0 [1] 4 0).
+  - in_trace.
+  - discriminate.
+Qed.
+(* near misses: strategy 3 does not apply to class 0 and the lazily built ready rule S3(4) of the factory
+   has no children: nothing is recorded for either *)
+Example C04_no_rule_when_not_applicable_near_miss :
+  applies ex_table 3 0 = false /\ applies ex_table 3 4 = false /\
+  forallb (fun e => match e with
+                    | EvAdd _ _ 3 p => negb ((p =? 0) || (p =? 4))
+                    | _ => true end) (trace (ex_run [ex_p1; ex_p2])) = true.
+Proof. csplit; vm_compute; reflexivity. Qed.
+
+(* the stored key of  S1(0) -> (1, 2)  with class 2 empty and strategy 1 possibly_empty: (0, (2,)) *)
+Example C04_stored_key_partial_nonvacuous :
+  let d := cdb (ex_run [ex_p1; ex_p2]) in
+  exlbl d 0 = Some 0 /\
+  exists ls bs,
+    Forall2 (fun c l => exlbl d c = Some l) (firstn (length ls) (kids_sp ex_table 1 0)) ls /\
+    length bs = length ls /\ [2] = isort (select bs ls) /\
+    (pe_of ex_table 1 = false -> [2] = isort ls).
+Proof.
+  apply (C04_stored_key_partial ex_table 0 20 false true ex_ans 0 [ex_p1; ex_p2] false 0 [2] 1 0). in_trace.
+Qed.
+(* ... and for a rule that is not possibly_empty (S3(1) -> (3,), stored as an equivalence) the last
+   clause is not vacuous *)
+Example C04_stored_key_partial_not_pe_nonvacuous :
+  let d := cdb (ex_run [ex_p1; ex_p2]) in
+  exlbl d 1 = Some 2 /\
+  exists ls bs,
+    Forall2 (fun c l => exlbl d c = Some l) (firstn (length ls) (kids_sp ex_table 3 1)) ls /\
+    length bs = length ls /\ [4] = isort (select bs ls) /\
+    (pe_of ex_table 3 = false -> [4] = isort ls).
+Proof.
+  apply (C04_stored_key_partial ex_table 0 20 false true ex_ans 0 [ex_p1; ex_p2] true 2 [4] 3 1). in_trace.
+Qed.
+Example C04_stored_key_partial_flags : pe_of ex_table 1 = true /\ pe_of ex_table 3 = false.
+Proof. split; reflexivity. Qed.
+
+(* set_empty(4, False) was issued for label 4 = class 3, which is not empty; set_empty(1, False) for the
+   symmetry image *)
+Example C04_set_empty_consistent_nonvacuous :
+  exists c, exlbl (cdb (ex_run [ex_p1; ex_p2])) c = Some 4 /\ oracle ex_table c = false.
+Proof.
+  apply (C04_set_empty_consistent ex_table 0 20 false true ex_ans 0
+           C04_nonvacuous_pe_contract C04_nonvacuous_sym_contract [ex_p1; ex_p2] 4 false). in_trace.
+Qed.
+
+(* the cache holds `true` at position 3 (class 2, truly empty) and `false` at position 2 (class 1) *)
+Example C04_empty_cache_truthful_nonvacuous :
+  true = oracle ex_table 2 /\ false = oracle ex_table 1.
+Proof.
+  split.
+  - apply (C04_empty_cache_truthful ex_table 0 20 false true ex_ans 0
+             C04_nonvacuous_pe_contract C04_nonvacuous_sym_contract [ex_p1; ex_p2] 3%nat 2 true);
+      vm_compute; reflexivity.
+  - apply (C04_empty_cache_truthful ex_table 0 20 false true ex_ans 0
+             C04_nonvacuous_pe_contract C04_nonvacuous_sym_contract [ex_p1; ex_p2] 2%nat 1 false);
+      vm_compute; reflexivity.
+Qed.
+
+(* under the contracts the key of  S1(0) -> (1, 2)  is exactly (0, sorted(labels of the non-empty kids)) *)
+Example C04_stored_key_nonvacuous :
+  let d := cdb (ex_run [ex_p1; ex_p2]) in
+  exlbl d 0 = Some 0 /\
+  exists ls,
+    Forall2 (fun c l => exlbl d c = Some l) (firstn (length ls) (kids_sp ex_table 1 0)) ls /\
+    [2] = isort (select (map (fun c => negb (pe_of ex_table 1 && oracle ex_table c))
+                             (firstn (length ls) (kids_sp ex_table 1 0))) ls).
+Proof.
+  apply (C04_stored_key ex_table 0 20 false true ex_ans 0
+           C04_nonvacuous_pe_contract C04_nonvacuous_sym_contract [ex_p1; ex_p2] false 0 [2] 1 0). in_trace.
+Qed.
+(* the witness: ls = [2; 3] (labels of classes 1 and 2), the flag of the empty class 2 is false *)
+Example C04_stored_key_witness :
+  let d := cdb (ex_run [ex_p1; ex_p2]) in
+  Forall2 (fun c l => exlbl d c = Some l) (firstn 2 (kids_sp ex_table 1 0)) [2; 3] /\
+  map (fun c => negb (pe_of ex_table 1 && oracle ex_table c)) (firstn 2 (kids_sp ex_table 1 0)) = [true; false] /\
+  isort (select [true; false] [2; 3]) = [2].
+Proof. cbv zeta. csplit; [repeat constructor| |]; vm_compute; reflexivity. Qed.
+
 Print Assumptions C04_labels.
 Print Assumptions C04_labels_stable.
 Print Assumptions C04_recorded_from_table.
